@@ -265,7 +265,7 @@ def _factory(kind, param):
         return make_race(param), [transport_file()], None
     import mysensors.task as mt
 
-    return make_queue_sched(param[0], param[1]), [mt.__file__], queue_touching_lines()
+    return make_queue_sched(param[0], param[1], len(param) > 2 and param[2]), [mt.__file__], queue_touching_lines()
 
 
 def _split_task(task):
@@ -516,7 +516,7 @@ def monitor_queue(lists, sent, appended, exc, drained):
     return bad
 
 
-def make_queue_sched(lists, pump_iters):
+def make_queue_sched(lists, pump_iters, stopper=False):
     def make():
         tasks, transport = make_tasks()
         out = {}
@@ -558,7 +558,14 @@ def make_queue_sched(lists, pump_iters):
         def observe():
             return {"sent": list(transport.sent), "qlen": len(tasks.queue), "exc": exc_name(out.get("exc"))}
 
-        return [producer(p) for p in range(len(lists))] + [pump], observe
+        def stop():
+            # a user stop() from yet another thread (the poll thread must stay the only consumer of the queue)
+            try:
+                tasks.stop()
+            except BaseException as exc:
+                out["exc"] = exc
+
+        return [producer(p) for p in range(len(lists))] + [pump] + ([stop] if stopper else []), observe
 
     return make
 
@@ -569,11 +576,12 @@ def run_queue_sched(ctx, res):
     bound = 3 if ctx.tier == "quick" else 5
     if ctx.searching:
         bound += 1
-    tasks = [([[0, 1], [100, 101]], 5, bound), ([[0], [100], [200]], 4, bound), ([[0, 1, 2]], 4, 99)]
-    results = par_explore([("queue", (lists, iters), b) for lists, iters, b in tasks])
+    tasks = [([[0, 1], [100, 101]], 5, bound, False), ([[0], [100], [200]], 4, bound, False), ([[0, 1, 2]], 4, 99, False),
+             ([[0, 1, 2]], 5, bound, True), ([[0, 1], [100]], 4, bound, True)]      # the last two: + a user stop() thread
+    results = par_explore([("queue", (lists, iters, st), b) for lists, iters, b, st in tasks])
     lines, metas = [], []
     total = 0
-    for (lists, iters, _), recs in zip(tasks, results):
+    for (lists, iters, _, stopper), recs in zip(tasks, results):
         k = len(lists)
         for choices, trace, o in recs:
             total += 1
@@ -590,7 +598,8 @@ def run_queue_sched(ctx, res):
                         evs.append(2 * tid)
                     elif tid == k and line in (ql["truth"], ql["popleft"]):
                         evs.append(1)
-            case = {"kind": "queue-sched", "lists": lists, "pump_iters": iters, "choices": choices, "trace": trace}
+            case = {"kind": "queue-sched", "lists": lists, "pump_iters": iters, "choices": choices, "trace": trace,
+                    "stopper": stopper}
             drained = o["qlen"] == 0
             bad = monitor_queue(lists, o["sent"], appended, o["exc"], drained)
             for key, what in bad:
@@ -689,8 +698,71 @@ def run_queue_stress(ctx, res):
 
 # ---------------------------------------------------------------- entry points
 
+def tcp_write_case(msg, plan):
+    """The real TCPTransport.write on a fake non-blocking socket that accepts only plan[i] bytes of the i-th sendall
+    call and then reports a full send buffer (None = accepts everything).  Returns (bytes the peer got, exception)."""
+    import mysensors.gateway_tcp as gt
+
+    class Sock:
+        def __init__(self):
+            self.peer = bytearray()
+            self.plan = list(plan)
+
+        def setblocking(self, flag):
+            pass
+
+        def fileno(self):
+            return -1
+
+        def close(self):
+            pass
+
+        def sendall(self, data):
+            if self.plan:
+                k = self.plan.pop(0)
+                if k is not None:
+                    self.peer += data[:k]
+                    raise BlockingIOError(11, "Resource temporarily unavailable")
+            self.peer += data
+
+    sock = Sock()
+    tr = gt.TCPTransport(sock, lambda: None, lambda: None)
+    exc = None
+    with mock.patch.object(gt.select, "select", lambda r, w, x, timeout=None: (list(r), list(w), [])), \
+            mock.patch.object(gt.time, "sleep", lambda s: None):
+        try:
+            tr.write(msg)
+        except BaseException as e:       # noqa: BLE001
+            exc = e
+    return bytes(sock.peer), exc
+
+
+def run_tcp_write(ctx, res):
+    """C16 'a log entry carries the complete message at most once' on the threaded TCP write path: whatever the send
+    buffer does, what the peer received of one command is a prefix of that command (never a byte twice), and a
+    command that was not written completely is reported (OSError) so that Transport.send closes and reconnects."""
+    msg = b"2;1;1;0;2;25\n"
+    plans = [[None]] + [[k] for k in range(len(msg) + 1)] + [[k, j] for k in (0, 3, 10) for j in (0, 2, None)] \
+        + [[5, 5, 5, 5, 5]]
+    for plan in plans:
+        res.evaluations += 1
+        res.count("tcp-write:" + ("complete" if plan == [None] else "send-buffer-full"))
+        peer, exc = tcp_write_case(msg, plan)
+        case = {"kind": "tcp-write", "msg": msg.decode(), "plan": plan}
+        if msg[:len(peer)] != peer:
+            res.violate("tcp-write/duplicated-bytes", f"send buffer plan {plan}: the peer received {peer!r} of the command {msg!r}", case)
+        elif peer != msg and not isinstance(exc, OSError):
+            res.violate("tcp-write/partial-write-not-reported",
+                        f"send buffer plan {plan}: only {peer!r} of {msg!r} was written and write() reported {exc!r}", case)
+        elif exc is not None and not isinstance(exc, OSError):
+            res.violate(f"tcp-write/raises-{exc_name(exc)}", f"send buffer plan {plan}: write() raised {exc!r}", case)
+        else:
+            res.nontriv(("tcp-write", tuple(plan)))
+
+
 def run(ctx, res):
     t0 = time.time()
+    run_tcp_write(ctx, res)
     if not (core.GEN / "SendSteps.v").exists():
         # the translator failed closed: an existing runner binary is stale -> monitors only
         ctx.model = None
@@ -743,10 +815,15 @@ def replay(ctx, case):
     if kind == "queue-sched":
         import mysensors.task as mt
 
-        choices, trace, o = sched.run_one(make_queue_sched(case["lists"], case["pump_iters"]), [mt.__file__], case["choices"],
+        choices, trace, o = sched.run_one(make_queue_sched(case["lists"], case["pump_iters"], case.get("stopper", False)), [mt.__file__], case["choices"],
                                            only_lines=queue_touching_lines())
         bad = monitor_queue(case["lists"], o["sent"], None, o["exc"], o["qlen"] == 0)
         return {"implementation": o, "trace": trace, "monitor": bad, "violates": bool(bad)}
+    if kind == "tcp-write":
+        peer, exc = tcp_write_case(case["msg"].encode(), case["plan"])
+        msg = case["msg"].encode()
+        bad = msg[:len(peer)] != peer or (peer != msg and not isinstance(exc, OSError))
+        return {"peer_received": repr(peer), "exception": repr(exc), "violates": bool(bad)}
     if kind == "queue-stress":
         lists, sent, appended, exc, qlen = stress_once(case["producers"], case["per"], case["record"])
         bad = monitor_queue(lists, sent, appended, exc, qlen == 0)
